@@ -46,6 +46,13 @@ class RecOp:
 
 def handler(c):
     n = c["natoms"]
+    OFF = int(c.get("label_offset", 0))      # 64-bit particle ids (hashes, code * 10**16 + index): labels far above 2**53
+
+    def enc(x):
+        return x if x is None or x < 0 else x + OFF
+
+    def dec(x):
+        return x if x is None or x < OFF else x - OFF      # (an automatic label max+1 over all-negative labels is 0, not offset)
     rng = np.random.default_rng(c["seed"])
     atoms = Atoms("Ar" * n, positions=np.array(c["positions"], dtype=float), cell=[15.0, 15.0, 15.0], pbc=True)
     if c.get("fixed"):
@@ -53,7 +60,7 @@ def handler(c):
     ctx = DisplacementContext(atoms, rng)
     leaves = []
     for lf in c["leaves"]:
-        mv = DisplacementMove(np.array(lf["labels"]), OPS[lf["op"]]())
+        mv = DisplacementMove(np.array([enc(x) for x in lf["labels"]], dtype=np.int64), OPS[lf["op"]]())
         mv.max_attempts = c.get("max_attempts", 3)
         leaves.append(mv)
     vetoes = list(c.get("vetoes", []))
@@ -77,7 +84,7 @@ def handler(c):
         if st[0] == "add":
             k, dl = st[1], st[2]
             for mv in leaves:
-                mv.default_label = dl
+                mv.default_label = enc(dl)
             atoms.extend(Atoms("Ar" * k, positions=rng.uniform(0, 10, (k, 3))))
             added = np.arange(len(atoms) - k, len(atoms))
             for mv in leaves:
@@ -92,14 +99,17 @@ def handler(c):
     ctx.last_positions = atoms.get_positions()
     move = build_expr(c["expr"], leaves)
     out = {"type": type(move).__name__, "calls": []}
+    derived = None
+    if c.get("derived") and hasattr(move, "moves") and hasattr(move, "number_of_moved_particles"):
+        derived = move * 2          # another composite made from this one: each reports about its own last call
     for call in c["calls"]:
         if call.get("relabel") == "roll":
             for mv in leaves:
                 mv.set_labels(np.roll(np.asarray(mv.labels), 1))
         if call.get("presel") is not None and not hasattr(move, "moves"):
-            move.to_displace_labels = call["presel"]
+            move.to_displace_labels = enc(call["presel"])
         before = atoms.positions.copy()
-        labels_before = [np.asarray(m.labels).tolist() for m in flat_moves(move)]
+        labels_before = [[dec(int(x)) for x in np.asarray(m.labels).tolist()] for m in flat_moves(move)]
         nchecks[0] = 0
         del attempts[:]
         ret = move(ctx)
@@ -124,13 +134,18 @@ def handler(c):
                "before": [b.tobytes().hex() for b in before], "after": [a.tobytes().hex() for a in after]}
         if hasattr(move, "moves"):
             dl = getattr(move, "displaced_labels", "MISSING")
-            rec["displaced"] = dl if dl == "MISSING" else [None if x is None else int(x) for x in dl]
+            rec["displaced"] = dl if dl == "MISSING" else [None if x is None else dec(int(x)) for x in dl]
             try:
                 rec["number_moved"] = int(move.number_of_moved_particles)
             except AttributeError:
                 rec["number_moved"] = "MISSING"
+            if derived is not None:
+                derived(ctx)
+                dl2 = getattr(move, "displaced_labels", "MISSING")
+                rec["displaced_after_other"] = dl2 if dl2 == "MISSING" else [None if x is None else dec(int(x)) for x in dl2]
+                rec["number_moved_after_other"] = int(move.number_of_moved_particles)
         else:
-            rec["displaced"] = None if move.displaced_labels is None else int(move.displaced_labels)
+            rec["displaced"] = None if move.displaced_labels is None else dec(int(move.displaced_labels))
         out["calls"].append(rec)
     return out
 
